@@ -3,6 +3,9 @@ import TsVerif.C16.NodeTypesLemmas
 import TsVerif.C16.Names
 import TsVerif.C16.DeriveLemmas
 import TsVerif.C16.Collapse
+import TsVerif.C16.DeriveExecLemmas
+import TsVerif.C16.Inline
+import TsVerif.C16.Lfp
 /-!
 # C16 — node-types.json, symbol tables and look-ahead sets are sound for every tree
 
@@ -179,7 +182,7 @@ theorem derive_entry_fields_partial (G : Grammar) (I : Info) (hcl : Closed G I) 
     (hnames : ∀ c ∈ ks, ∀ f ∈ c.fields, f ∈ names) :
     (∀ k ∈ ks.map kidVT, ∀ f ∈ k.fields, ∃ fs ∈ (toEntry I v ty names).fields, fs.1 = f ∧ Reach nt fs.2.types k.ty) ∧
     (∀ fs ∈ (toEntry I v ty names).fields, QuantOK fs.2 (countField (ks.map kidVT) fs.1)) := by
-  obtain ⟨a1, _, a3, _, a5⟩ := kidsN_sound G I hcl n v ks h
+  obtain ⟨a1, _, a3, _, a5, _⟩ := kidsN_sound G I hcl n v ks h
   constructor
   · intro k hk f hf
     simp only [List.mem_map] at hk
@@ -199,6 +202,116 @@ theorem derive_entry_fields_partial (G : Grammar) (I : Info) (hcl : Closed G I) 
     · simp only [decide_eq_false_iff_not] at hmul
       simp only [countField_kidVT]
       have := a3 f (by omega); omega
+
+open Derive in
+/-- `real_file_admits`: the executable check the driver runs on REAL data on every run — `closedB G I`
+with `G` the productions of a generated grammar (after the inlining rounds) and `I` the real
+node-types.json entries of the visible rules together with the iterated information of the hidden
+ones — is sound: when it answers `true`, every children sequence any rule can derive is admitted by
+that information (obligation `model:real-node-types-are-closed`). -/
+theorem real_file_admits (G : Grammar) (I : InfoF) (h : closedB G I = true) (n v : Nat) (ks : List Child)
+    (hk : KidsN G n v ks) : Admits I.toInfo v ks :=
+  kidsN_sound G I.toInfo (closedB_sound G I h) n v ks hk
+
+open Derive in
+/-- `inline_round`: `process_inlines` as substitution.  The children sequences derivable in the grammar
+whose productions have every reference to an inlined variable replaced by each of that variable's
+productions (the inserted steps taking the reference's alias and field: `override`) are EXACTLY the
+sequences derivable in the original grammar when such a reference contributes the children of one of
+the variable's productions, spliced in place with the alias / field stamped on every step (`KidsNI`):
+no node for the inlined variable, and an inner field is REPLACED by the reference's field. -/
+theorem inline_round (G : Grammar) (inl : List Nat) (n v : Nat) (ks : List Child) :
+    KidsN (inlineG G inl) n v ks ↔ KidsNI G inl n v ks :=
+  kidsN_inlineG G inl n v ks
+
+open Derive in
+/-- `inlined_file_admits`: information closed under the INLINED productions admits every derivation of
+the original grammar with the inlined rules spliced. -/
+theorem inlined_file_admits (G : Grammar) (inl : List Nat) (I : Info) (hcl : Closed (inlineG G inl) I)
+    (n v : Nat) (ks : List Child) (hk : KidsNI G inl n v ks) : Admits I v ks :=
+  kidsN_sound _ I hcl n v ks ((kidsN_inlineG G inl n v ks).2 hk)
+
+open Derive in
+/-- `lfp_closed`: the iteration `stepS^n ⊥` (one round of the inequations of `get_variable_info`,
+accumulating, from the empty table) with fuel `n ≥ lfpFuel G` = twice the number of table entries
+((variable, kind), (variable, field, kind) and the quantity bounds of the grammar's universe) has
+stopped changing and stands for `Closed` information — for EVERY grammar. -/
+theorem lfp_closed (G : Grammar) (n : Nat) (hn : lfpFuel G ≤ n) :
+    Closed G (toInfoS (Univ.of G) (iterS G (Univ.of G) n)) :=
+  iterS_closed G n hn
+
+open Derive in
+/-- `lfp_least`: at every stage the iteration is below EVERY closed information `I` (its kinds are in
+`I`'s sets; where `I` says "at most one / none" its maxima are at most `I`'s; its minima — `required` —
+are at least `I`'s, compared up to "2 = many"): what the iteration reaches is the LEAST closed
+information. -/
+theorem lfp_least (G : Grammar) (I : Info) (hcl : Closed G I) (n : Nat) :
+    InfoLe (Univ.of G).F (toInfoS (Univ.of G) (iterS G (Univ.of G) n)) I :=
+  iterS_below G (Univ.of G) I hcl n
+
+open Derive in
+/-- so the least information itself admits every derivation -/
+theorem lfp_admits (G : Grammar) (n v : Nat) (ks : List Child) (hk : KidsN G n v ks) : Admits (lfp G) v ks :=
+  kidsN_sound G _ (iterS_closed G _ (Nat.le_refl _)) n v ks hk
+
+/-! ### extras -/
+
+theorem countField_filter (kids : List VT) (f : String) :
+    countField kids f = ((kids.filter (fun k => !k.extra)).filter (fun k => decide (f ∈ k.fields))).length := by
+  simp only [countField, List.filter_filter]
+  congr 2
+  funext k
+  exact Bool.and_comm _ _
+
+theorem countPlain_filter (kids : List VT) :
+    countPlain kids = ((kids.filter (fun k => !k.extra)).filter (fun k => k.fields.isEmpty && k.ty.named)).length := by
+  simp only [countPlain, List.filter_filter]
+  congr 2
+  funext k
+  cases k.extra <;> cases k.fields.isEmpty <;> cases k.ty.named <;> rfl
+
+/-- `extras_transparent`: an extra may appear anywhere in any children list; whether a node's entry
+holds depends only on the children that are NOT flagged extra.  (The extra children themselves are
+admitted through the `"extra": true` mark of their own entry: judge `extraUnmarked` on every tree,
+and on the grammar level every visible extra symbol must carry the mark — part of `model_closed`.) -/
+theorem extras_transparent (nt : NodeTypes) (e : Entry) (kids kids' : List VT)
+    (h : kids'.filter (fun k => !k.extra) = kids.filter (fun k => !k.extra)) :
+    EntryOK nt e kids' ↔ EntryOK nt e kids := by
+  have key : ∀ ks : List VT, EntryOK nt e ks ↔
+      (e.subtypes = none ∧ (∀ k ∈ ks.filter (fun k => !k.extra), ChildOK nt e k) ∧
+       (∀ fs ∈ e.fields, QuantOK fs.2 ((ks.filter (fun k => !k.extra)).filter (fun k => decide (fs.1 ∈ k.fields))).length) ∧
+       (∀ spec, e.children = some spec → QuantOK spec ((ks.filter (fun k => !k.extra)).filter (fun k => k.fields.isEmpty && k.ty.named)).length)) := by
+    intro ks
+    unfold EntryOK
+    simp only [countField_filter, countPlain_filter, List.mem_filter, Bool.not_eq_true', and_imp]
+  rw [key kids', key kids, h]
+
+open Derive in
+/-- `derive_entry_fields_extras`: `derive_entry_fields_partial` for a children list with extras
+interleaved anywhere among the derived children. -/
+theorem derive_entry_fields_extras (G : Grammar) (I : Info) (hcl : Closed G I) (nt : NodeTypes)
+    (n v : Nat) (ks : List Child) (h : KidsN G n v ks) (ty : TypeRef) (names : List String)
+    (hnames : ∀ c ∈ ks, ∀ f ∈ c.fields, f ∈ names) (zs : List VT)
+    (hz : zs.filter (fun k => !k.extra) = ks.map kidVT) :
+    (∀ k ∈ zs, k.extra = false → ∀ f ∈ k.fields, ∃ fs ∈ (toEntry I v ty names).fields, fs.1 = f ∧ Reach nt fs.2.types k.ty) ∧
+    (∀ fs ∈ (toEntry I v ty names).fields, QuantOK fs.2 (countField zs fs.1)) := by
+  obtain ⟨b1, b2⟩ := derive_entry_fields_partial G I hcl nt n v ks h ty names hnames
+  have hself : (ks.map kidVT).filter (fun k => !k.extra) = ks.map kidVT := by
+    apply List.filter_eq_self.2
+    intro k hk
+    simp only [List.mem_map] at hk
+    obtain ⟨c, _, rfl⟩ := hk
+    rfl
+  constructor
+  · intro k hk hex f hf
+    have : k ∈ zs.filter (fun k => !k.extra) := List.mem_filter.2 ⟨hk, by simp [hex]⟩
+    rw [hz] at this
+    exact b1 k this f hf
+  · intro fs hfs
+    have := b2 fs hfs
+    rw [countField_filter] at this ⊢
+    rw [hz, ← hself]
+    exact this
 
 /-- `collapse_preserves_admitted`: the supertype-collapsing step of `generate_node_types`
 (`process_supertypes`: when a `types` list contains a supertype, that supertype's subtypes are removed
@@ -349,7 +462,10 @@ def exI : Info :=
     childMax := fun _ => 2,
     childMin := fun v => if v = 0 then 3 else 1,
     fieldMax := fun v f => if v = 0 then (if f = "key" then 1 else if f = "value" then 2 else 0) else 0,
-    fieldMin := fun v f => if v = 0 then (if f = "key" then 1 else if f = "value" then 1 else 0) else 0 }
+    fieldMin := fun v f => if v = 0 then (if f = "key" then 1 else if f = "value" then 1 else 0) else 0,
+    plainTypes := fun v => if v = 0 then [] else [tNum],
+    plainMax := fun v => if v = 0 then 0 else 2,
+    plainMin := fun v => if v = 0 then 0 else 1 }
 
 /-- a derivation through the hidden rule: the two `num` children inherit the field `value` -/
 example : KidsN exG 2 0 [⟨tIdent, ["key"]⟩, ⟨tColon, []⟩, ⟨tNum, ["value"]⟩, ⟨tNum, ["value"]⟩] := by
@@ -368,7 +484,7 @@ example : Closed exG exI := by
   rcases hv with rfl | rfl | hv
   · simp only [Grammar.prodsOf, exG, List.getD_cons_zero, List.mem_singleton] at hp
     subst hp
-    refine ⟨?_, ?_, ?_, ?_, ?_⟩
+    refine ⟨?_, ?_, ?_, ?_, ?_, ?_, ?_⟩
     · intro s hs
       simp only [List.mem_cons, List.not_mem_nil, or_false] at hs
       rcases hs with rfl | rfl | rfl
@@ -383,17 +499,68 @@ example : Closed exG exI := by
         simp_all [exI, sumBy, stepFieldMax, visTy, Grammar.kind, exG]
     · simp [exI, sumBy, stepChildMin, visTy, Grammar.kind, exG]
     · intro f
+      have e1 : ("key" = f) = (f = "key") := propext ⟨Eq.symm, Eq.symm⟩
+      have e2 : ("value" = f) = (f = "value") := propext ⟨Eq.symm, Eq.symm⟩
       by_cases h1 : f = "key" <;> by_cases h2 : f = "value" <;>
         simp_all [exI, sumBy, stepFieldMin, visTy, Grammar.kind, exG]
+    · simp [exI, sumBy, stepPlainMax, visTy, Grammar.kind, exG, tColon]
+    · simp [exI]
   · simp only [Grammar.prodsOf, exG] at hp
     simp at hp
     rcases hp with rfl | rfl <;>
-      (refine ⟨?_, ?_, ?_, ?_, ?_⟩ <;>
-        simp_all [StepClosed, visTy, Grammar.kind, exG, exI, sumBy, stepFieldMax, stepFieldMin, stepChildMin, stepChildMax, tNum])
+      (refine ⟨?_, ?_, ?_, ?_, ?_, ?_, ?_⟩ <;>
+        simp_all [StepClosed, visTy, Grammar.kind, exG, exI, sumBy, stepFieldMax, stepFieldMin, stepChildMin, stepChildMax,
+          stepPlainMax, stepPlainMin, tNum])
   · have : exG.prodsOf v = [] := by
       obtain ⟨w, rfl⟩ : ∃ w, v = w + 2 := ⟨v - 2, by omega⟩
       simp [Grammar.prodsOf, exG]
     rw [this] at hp; cases hp
+
+
+/-! ### non-vacuity: executable check, least fixed point, inlining -/
+
+def exIF : InfoF :=
+  [ { children := [tIdent, tColon, tNum], childMax := 2, childMin := 3,
+      fields := [("key", [tIdent], 1, 1), ("value", [tNum], 2, 1)], plain := [], plainMax := 0, plainMin := 0 },
+    { children := [tNum], childMax := 2, childMin := 1, fields := [], plain := [tNum], plainMax := 2, plainMin := 1 } ]
+
+example : closedB exG exIF = true := by decide
+/-- dropping the `multiple` flag of `value` is detected, with the production -/
+example : firstOpen exG [ { exIF.var 0 with fields := [("key", [tIdent], 1, 1), ("value", [tNum], 1, 1)] }, exIF.var 1 ] = some (0, 0) := by decide
+/-- dropping the kind `num` from field `value` is detected -/
+example : closedB exG [ { exIF.var 0 with fields := [("key", [tIdent], 1, 1), ("value", [], 2, 1)] }, exIF.var 1 ] = false := by decide
+
+example : Closed exG (lfp exG) := iterS_closed exG _ (Nat.le_refl _)
+
+/-- the finding `C16-inlined-field-override`:
+`fo_stmt: 'fo' outer:_fo_body ';'`, `_fo_body: inner:ident '=' ident`, `_fo_body` inlined -/
+def foG : Grammar :=
+  { syms := [.token (some ⟨"fo", false⟩), .token (some ⟨";", false⟩), .token (some tIdent), .token (some ⟨"=", false⟩),
+             .rule 0 (some ⟨"fo_stmt", true⟩), .rule 1 none],
+    prods := [ [ [⟨0, none, none⟩, ⟨5, some "outer", none⟩, ⟨1, none, none⟩] ],
+               [ [⟨2, some "inner", none⟩, ⟨3, none, none⟩, ⟨2, none, none⟩] ] ] }
+
+/-- the substitution: the three inserted steps carry `outer`; `inner` is gone -/
+example : ((inlineG foG [1]).prodsOf 0).map (fun p => p.map (fun s => (s.sym, s.field))) =
+    [[(0, none), (2, some "outer"), (3, some "outer"), (2, some "outer"), (1, none)]] := by decide
+
+def foKids : List Child :=
+  [⟨⟨"fo", false⟩, []⟩, ⟨tIdent, ["outer"]⟩, ⟨⟨"=", false⟩, ["outer"]⟩, ⟨tIdent, ["outer"]⟩, ⟨⟨";", false⟩, []⟩]
+
+/-- `foWit`: the children of `fo a = b ;` are derivable with the inlined rule spliced, and NO
+information that calls field `inner` required (as the real node-types.json does) admits them. -/
+theorem foWit : KidsNI foG [1] 1 0 foKids ∧ ∀ I : Info, 1 ≤ I.fieldMin 0 "inner" → ¬ Admits I 0 foKids := by
+  constructor
+  · refine ⟨_, List.mem_singleton.2 rfl, ?_⟩
+    refine ⟨[⟨⟨"fo", false⟩, []⟩], _, rfl, rfl, ?_⟩
+    refine ⟨[⟨tIdent, ["outer"]⟩, ⟨⟨"=", false⟩, ["outer"]⟩, ⟨tIdent, ["outer"]⟩], _, rfl, ?_, ?_⟩
+    · refine ⟨_, List.mem_singleton.2 rfl, ?_⟩
+      exact ⟨[⟨tIdent, ["outer"]⟩], _, rfl, rfl, [⟨⟨"=", false⟩, ["outer"]⟩], _, rfl, rfl, [⟨tIdent, ["outer"]⟩], [], rfl, rfl, rfl⟩
+    · exact ⟨[⟨⟨";", false⟩, []⟩], [], rfl, rfl, rfl⟩
+  · intro I hI hA
+    have := hA.2.2.2.2.1 "inner"
+    have e : cnt "inner" foKids = 0 := by decide
+    omega
 
 end Derive
 
